@@ -216,40 +216,69 @@ def _resolve(s, scope):
     return (scope.get(None) or None, s)
 
 
-def _match_atoms(actual, atoms, scope):
-    parts = actual.split(" ")
-    # literal atoms may themselves contain blanks: match greedily from the left
-    i = 0
-    for k, a in enumerate(atoms):
-        if isinstance(a, str):
-            want = a.split(" ")
-            if parts[i : i + len(want)] != want:
-                return "text %r does not carry the literal %r" % (actual, a)
-            i += len(want)
-        else:
-            if i >= len(parts):
-                return "text %r lacks a QName for %r" % (actual, a)
-            got = _resolve(parts[i], scope)
-            if got != (a[1], a[2]):
-                return "QName %r resolves to %r in scope, expected %r" % (parts[i], got, (a[1], a[2]))
-            i += 1
-    if i != len(parts):
-        return "text %r has extra tokens" % actual
-    return None
+def _parts(exp):
+    """an expected value as a sequence of literal pieces and QNames"""
+    if isinstance(exp, str):
+        return [("lit", exp)]
+    if exp[0] == "Q":
+        return [("q", exp[1], exp[2])]
+    if exp[0] == "L":
+        out = []
+        for k, a in enumerate(exp[1]):
+            if k:
+                out.append(("lit", " "))
+            out.extend(_parts(a))
+        return out
+    if exp[0] == "CAT":
+        return _parts(exp[1]) + _parts(exp[2])
+    raise ValueError(exp)
+
+
+def _qname_forms(uri, local, scope):
+    """the lexical QNames that resolve to (uri, local) in this scope"""
+    forms = []
+    if (scope.get(None) or None) == uri:
+        forms.append(local)
+    for p, u in scope.items():
+        if p is not None and u and u == uri:
+            forms.append(p + ":" + local)
+    if uri == XMLNS:
+        forms.append("xml:" + local)
+    return forms
+
+
+def _match_parts(actual, parts, scope):
+    """None when `actual` is the concatenation of the literal pieces and, for each QName,
+    some lexical form that resolves to it in `scope` (backtracking over the forms)"""
+    if not parts:
+        return None if actual == "" else "text has the extra tail %r" % actual
+    head, rest = parts[0], parts[1:]
+    if head[0] == "lit":
+        if not actual.startswith(head[1]):
+            return "text %r does not continue with the literal %r" % (actual, head[1])
+        return _match_parts(actual[len(head[1]):], rest, scope)
+    forms = _qname_forms(head[1], head[2], scope)
+    last = "no prefix in scope is bound to %r for QName {%s}%s at %r" % (head[1], head[1], head[2], actual[:40])
+    for f in sorted(forms, key=len, reverse=True):
+        if actual.startswith(f):
+            m = _match_parts(actual[len(f):], rest, scope)
+            if m is None:
+                return None
+            last = m
+    if forms and not any(actual.startswith(f) for f in forms):
+        tok = re.split(r"[ <]", actual, 1)[0]
+        last = "QName %r resolves to %r in scope, expected %r" % (tok, _resolve(tok, scope) if tok else None, (head[1], head[2]))
+    return last
 
 
 def _match_value(actual, exp, scope):
     if isinstance(exp, str):
         return None if actual == exp else "value %r, expected %r" % (actual, exp)
-    if exp[0] == "Q":
-        return _match_atoms(actual, [exp], scope)
-    if exp[0] == "L":
-        return _match_atoms(actual, exp[1], scope)
     if exp[0] == "ANYOF":
         if actual == exp[1]:
             return None
-        return _match_atoms(actual, [exp[2]], scope)
-    return "unknown expectation"
+        return _match_parts(actual, _parts(exp[2]), scope)
+    return _match_parts(actual, _parts(exp), scope)
 
 
 def _merge_text(kids):
@@ -292,8 +321,6 @@ def compare_tree(actual, exp, path="/"):
             if a[0] != "t":
                 return "%s: element where text %r expected" % (here, e[1])
             v = e[1]
-            if isinstance(v, tuple) and v[0] == "CAT":
-                return "%s: consecutive text chunks with QNames" % here
             m = _match_value(a[1], v, scope)
             if m:
                 return "%s/text(): %s" % (here, m)
@@ -382,7 +409,6 @@ def user_map(pairs):
     return out
 
 
-MARKUP = re.compile(r'[&<"]')
 
 
 def _texts(a, kinds=("attr", "data")):
@@ -426,18 +452,6 @@ def _qname_atoms(v):
             yield x["q"]
 
 
-def p_default_attr(a):
-    d = user_map(a["ns_map"]).get(None)
-    if not d:
-        return False
-    for e in a["events"]:
-        if e[0] == "attr":
-            c = S.clark(e[1])
-            if c and c[0] == d:
-                return True
-    return False
-
-
 def p_reserved_prefix(a):
     for p, u in user_map(a["ns_map"]).items():
         if p is not None and (p in ("xml", "xmlns") or not S.is_ncname(p)):
@@ -447,25 +461,9 @@ def p_reserved_prefix(a):
     return False
 
 
-def p_consecutive_data(a):
-    prev = None
-    for e in a["events"]:
-        if e[0] == "data" and prev == "data" and e[1] not in (None, "", []):
-            return True
-        prev = e[0]
-    return False
-
-
-def p_cr_text(a):
-    return any(k == "data" and "\r" in s for k, s in _texts(a))
-
-
 def p_nonxml_chars(a):
-    return any(not S.xml_chars(s) for _, s in _texts(a))
-
-
-def p_uri_markup(a):
-    return any(MARKUP.search(u) or not S.xml_chars(u) or re.search(r"[\t\n\r]", u) for u in _uris(a))
+    """a character outside the XML Char production in a text, an attribute value or a namespace name"""
+    return any(not S.xml_chars(s) for _, s in _texts(a)) or any(not S.xml_chars(u) for u in _uris(a))
 
 
 def p_qname_late(a):
@@ -517,13 +515,9 @@ def p_qname_default_reset(a):
 
 # id -> (predicate, {writer: kinds})
 KNOWN = {
-    "c03-default-ns-attribute": (p_default_attr, {"native": ("infoset", "not-wf", "leak:KeyError")}),
     "c03-qname-default-reset": (p_qname_default_reset, {"native": ("infoset",), "lxml": ("infoset",)}),
     "c03-reserved-prefix": (p_reserved_prefix, {"native": ("not-wf", "infoset"), "lxml": ("leak:ValueError", "not-wf", "infoset")}),
-    "c03-consecutive-text": (p_consecutive_data, {"native": ("not-wf", "infoset"), "lxml": ("leak:IndexError", "infoset", "not-wf")}),
-    "c03-cr-in-text": (p_cr_text, {"native": ("infoset",)}),
     "c03-nonxml-chars": (p_nonxml_chars, {"native": ("not-wf",), "lxml": ("leak:ValueError",)}),
-    "c03-uri-markup": (p_uri_markup, {"native": ("not-wf", "infoset"), "lxml": ("leak:ValueError",)}),
     "c03-qname-late-prefix": (p_qname_late, {"native": ("leak:KeyError", "infoset", "not-wf"), "lxml": ("infoset",)}),
     "c03-qname-default-ns": (p_qname_default, {"native": ("infoset",), "lxml": ("infoset",)}),
 }
@@ -587,13 +581,6 @@ class Mixed:
     content: List[object] = field(default_factory=list, metadata={"type": "Wildcard", "namespace": "##any", "mixed": True})
 
 
-@dataclass
-class Amp:
-    class Meta:
-        name = "R"
-        namespace = "http://example.com/ns?a=1&b=2"
-
-
 def _render(obj, ns_map=None, writer=XmlEventWriter):
     ser = XmlSerializer(config=SerializerConfig(xml_declaration=False), writer=writer)
     try:
@@ -611,13 +598,6 @@ def _tree(text):
         return None
 
 
-def f_default_attr():
-    out = _render(RootA(x="1"), {"": "urn:a"})
-    t = _tree(out)
-    bad = t is not None and [a[0] for a in t[3]] == [None]
-    return bool(bad), "render(R{urn:a} with @{urn:a}x, ns_map={'':'urn:a'}) -> %s" % out
-
-
 def f_reserved_prefix():
     outs = [_render(RootA(), {p: "urn:a"}) for p in ("xml", "xmlns", "a b")]
     bad = all(S.parse_infoset(o) is None for o in outs)
@@ -625,28 +605,10 @@ def f_reserved_prefix():
     return bad and lx == "EXC ValueError", "native: %s; lxml 'a b': %s" % (" | ".join(outs), lx)
 
 
-def f_consecutive_text():
-    out = _render(Mixed(content=["a", "b"]))
-    lx = _render(Mixed(content=["a", "b"]), None, LxmlEventWriter)
-    return out == "<M>a</M>b" and lx == "EXC IndexError", "render(M mixed ['a','b']) -> native %s, lxml %s" % (out, lx)
-
-
-def f_cr_text():
-    out = _render(RootA(t="a\rb"))
-    t = S.parse_infoset(out)
-    bad = "\r" in out and t is not None and t[4][0][4] == [["t", "a\nb"]]
-    return bool(bad), "render(t='a\\rb') -> %r, read back as %r" % (out, t[4][0][4] if t else None)
-
-
 def f_nonxml_chars():
     out = _render(RootA(t="a\x01b"))
     lx = _render(RootA(t="a\x01b"), None, LxmlEventWriter)
     return "\x01" in out and S.parse_infoset(out) is None and lx == "EXC ValueError", "render(t='a\\x01b') -> native %r (not well-formed), lxml %s" % (out, lx)
-
-
-def f_uri_markup():
-    out = _render(Amp())
-    return S.parse_infoset(out) is None and "&b" in out, "render(R in namespace 'http://example.com/ns?a=1&b=2') -> %s (not well-formed)" % out
 
 
 def f_qname_late():
@@ -701,12 +663,8 @@ def f_qname_default():
 
 
 FINDINGS = {
-    "c03-default-ns-attribute": f_default_attr,
     "c03-reserved-prefix": f_reserved_prefix,
-    "c03-consecutive-text": f_consecutive_text,
-    "c03-cr-in-text": f_cr_text,
     "c03-nonxml-chars": f_nonxml_chars,
-    "c03-uri-markup": f_uri_markup,
     "c03-qname-late-prefix": f_qname_late,
     "c03-qname-default-ns": f_qname_default,
     "c03-qname-default-reset": f_qname_default_reset,
